@@ -106,6 +106,9 @@ func runProperty(repo, prop string, timeoutSec, seed int, smtDir string) (*runRe
 			rr.bindErrs = append(rr.bindErrs, c.Key+"#contract-binds: "+c.BindErr)
 			continue
 		}
+		if c.Iface {
+			continue
+		}
 		r := VerifyFunc(rr.world, prog, c.Fn)
 		rr.results = append(rr.results, r)
 		for _, o := range r.Obls {
